@@ -342,6 +342,128 @@ theorem resolveServiceEnvH_no_alias (penv : List (Key × Str)) (fs : FS) (env : 
     simp only
     rw [he2, he1, List.append_assoc, List.getElem?_append_left ha]
 
+/-! ## the loop body refines the value model -/
+
+theorem mapSnd_insert {β γ : Type} (g : β → γ) (k : Key) (v : β) (m : List (Key × β)) :
+    (insert k v m).map (fun kv => (kv.1, g kv.2)) = insert k (g v) (m.map fun kv => (kv.1, g kv.2)) := by
+  induction m with
+  | nil => rfl
+  | cons p r ih =>
+    obtain ⟨k', v'⟩ := p
+    by_cases hk : k' = k <;> simp [insert, hk, ih]
+
+theorem mapSnd_overrideBy {β γ : Type} (g : β → γ) (m o : List (Key × β)) :
+    (overrideBy m o).map (fun kv => (kv.1, g kv.2)) =
+      overrideBy (m.map fun kv => (kv.1, g kv.2)) (o.map fun kv => (kv.1, g kv.2)) := by
+  induction o generalizing m with
+  | nil => rfl
+  | cons p r ih =>
+    obtain ⟨k, v⟩ := p
+    show (overrideBy (insert k v m) r).map _ = overrideBy (insert k (g v) (m.map _)) (r.map _)
+    rw [ih, mapSnd_insert]
+
+theorem deref_overrideBy (h : Cells) (m o : HMWE) : deref h (overrideBy m o) = overrideBy (deref h m) (deref h o) := by
+  unfold deref
+  exact mapSnd_overrideBy (fun (v : Option Nat) => (match v with | some a => h[a]? | none => none : Option Str)) m o
+
+theorem toMWE_overrideBy (m o : List (Key × Str)) : toMWE (overrideBy m o) = overrideBy (toMWE m) (toMWE o) :=
+  mapSnd_overrideBy some m o
+
+theorem ofMWE_toMWE (m : List (Key × Str)) : ofMWE (toMWE m) = m := by
+  induction m with
+  | nil => rfl
+  | cons p r ih =>
+    simp only [toMWE, List.map_cons, ofMWE, List.filterMap_cons] at ih ⊢
+    rw [ih]
+
+theorem addrs_of_valid {h : Cells} {m : HMWE} (hv : Valid h m) : ∀ a ∈ addrs m, a < h.length := fun a ha => by
+  obtain ⟨⟨k, v⟩, hp, hpa⟩ := List.mem_filterMap.1 ha
+  simp only at hpa
+  subst hpa
+  exact hv k a hp
+
+theorem valid_of_addrs {h : Cells} {m : HMWE} (hb : ∀ a ∈ addrs m, a < h.length) : Valid h m :=
+  fun k a hm => hb a (List.mem_filterMap.2 ⟨(k, some a), hm, rfl⟩)
+
+theorem addrs_overrideBy_sub (m o : HMWE) : ∀ a ∈ addrs (overrideBy m o), a ∈ addrs m ∨ a ∈ addrs o := by
+  induction o generalizing m with
+  | nil => exact fun a ha => Or.inl ha
+  | cons p r ih =>
+    obtain ⟨k, v⟩ := p
+    intro a ha
+    have hsub : ∀ a ∈ addrs r, a ∈ addrs ((k, v) :: r) := fun a ha => by cases v <;> simp_all [addrs]
+    rcases ih (insert k v m) a ha with h1 | h1
+    · rcases addrs_insert_sub k v m a h1 with h2 | h2
+      · exact Or.inl h2
+      · exact Or.inr (by subst h2; simp [addrs])
+    · exact Or.inr (hsub a h1)
+
+/-- how a heap-level outcome relates to the value-level outcome -/
+def RefinesOut (a : Except Err (HMWE × Cells)) (b : Except Err (List (Key × Option Str))) : Prop :=
+  match a, b with
+  | .ok r, .ok v => deref r.2 r.1 = v
+  | .error e, .error e' => e = e'
+  | _, _ => False
+
+theorem loadEnvFilesH_refines (penv : List (Key × Str)) (fs : FS) (efs : List EnvFile) (acc : HMWE) (h : Cells)
+    (accV : List (Key × Str)) (hv : Valid h acc) (hd : deref h acc = toMWE accV) :
+    RefinesOut (loadEnvFilesH penv fs efs acc h) ((loadEnvFiles penv fs efs accV).map toMWE) ∧
+    ∀ r, loadEnvFilesH penv fs efs acc h = .ok r → Valid r.2 r.1 ∧ ∃ ext, r.2 = h ++ ext := by
+  induction efs generalizing acc h accV with
+  | nil =>
+    refine ⟨hd, fun r hr => ?_⟩
+    simp only [loadEnvFilesH, Except.ok.injEq] at hr
+    subst hr
+    exact ⟨hv, [], by simp⟩
+  | cons f rest ih =>
+    have hstr : derefStr h acc = accV := by rw [derefStr, hd, ofMWE_toMWE]
+    simp only [loadEnvFilesH, loadEnvFiles, hstr]
+    cases hl : loadEnvFile fs f (envChain penv accV) with
+    | error e => exact ⟨rfl, fun r hr => by cases hr⟩
+    | ok vars =>
+      simp only
+      have hheap : (toMWEH vars h).2 = h ++ vars.map Prod.snd := toMWEH_heap vars h
+      have hfresh := (toMWEH_fresh_no_alias vars h).2.1
+      have hv' : Valid (toMWEH vars h).2 (overrideBy acc (toMWEH vars h).1) := valid_of_addrs fun a ha => by
+        rcases addrs_overrideBy_sub acc _ a ha with h1 | h1
+        · have := addrs_of_valid hv a h1
+          rw [hheap]; simp only [List.length_append]; omega
+        · exact (hfresh a h1).2
+      have hd' : deref (toMWEH vars h).2 (overrideBy acc (toMWEH vars h).1) = toMWE (overrideBy accV vars) := by
+        rw [deref_overrideBy, toMWEH_refines, toMWE_overrideBy, hheap, deref_ext h _ acc hv, hd]
+      obtain ⟨h1, h2⟩ := ih _ _ _ hv' hd'
+      refine ⟨h1, fun r hr => ?_⟩
+      obtain ⟨hvr, ext, he⟩ := h2 r hr
+      exact ⟨hvr, vars.map Prod.snd ++ ext, by rw [he, hheap, List.append_assoc]⟩
+
+/-- **resolveServiceEnvH_refines.**  The loop body of `WithServicesEnvironmentResolved` run on the heap — pointers stored,
+    copied and followed as the code does — fails exactly when the value model `resolveServiceEnv` fails, with the same
+    error, and otherwise following the pointers of its result gives the model's `Environment`. -/
+theorem resolveServiceEnvH_refines (penv : List (Key × Str)) (fs : FS) (discard : Bool) (s : Service) (env : HMWE) (h : Cells)
+    (hv : Valid h env) (hd : deref h env = s.environment) :
+    RefinesOut (resolveServiceEnvH penv fs env s.envFiles h) ((resolveServiceEnv penv fs discard s).map (·.environment)) := by
+  obtain ⟨⟨ext1, he1⟩, hval1, _⟩ := resolveH_shape (fun k => lookup k penv) env h hv
+  have href := resolveH_refines (fun k => lookup k penv) env h hv
+  obtain ⟨h1, h2⟩ := loadEnvFilesH_refines penv fs s.envFiles [] (resolveH (fun k => lookup k penv) env h).2 []
+    (fun _ _ hm => by cases hm) rfl
+  unfold resolveServiceEnvH resolveServiceEnv
+  cases hH : loadEnvFilesH penv fs s.envFiles [] (resolveH (fun k => lookup k penv) env h).2 with
+  | error e =>
+    rw [hH] at h1
+    cases hV : loadEnvFiles penv fs s.envFiles [] with
+    | error e' => rw [hV] at h1; exact h1
+    | ok accV => rw [hV] at h1; exact h1.elim
+  | ok r =>
+    rw [hH] at h1
+    cases hV : loadEnvFiles penv fs s.envFiles [] with
+    | error e' => rw [hV] at h1; exact h1.elim
+    | ok accV =>
+      rw [hV] at h1
+      obtain ⟨_, ext2, he2⟩ := h2 r hH
+      show deref r.2 (overrideBy r.1 _) = overrideBy (toMWE accV) (resolveMWE _ s.environment)
+      have h1' : deref r.2 r.1 = toMWE accV := h1
+      rw [deref_overrideBy, h1', he2, deref_ext _ ext2 _ hval1, href, hd]
+
 namespace Example
 /-- two value-less keys with different project-environment values, one key with a value in cell 0 -/
 def m0 : HMWE := [(['A'], none), (['K'], some 0), (['B'], none), (['C'], none)]
